@@ -1890,6 +1890,15 @@ impl Connection {
             if space == SpaceId::Data {
                 // Skip ApplicationData until handshake completes.
                 if self.is_handshaking() {
+                    if result.is_none() && !self.peer_completed_address_validation() {
+                        // Only 0-RTT packets are in flight. The client must still probe, because
+                        // the server might be blocked by the anti-amplification limit.
+                        let space = match self.highest_space {
+                            SpaceId::Handshake => SpaceId::Handshake,
+                            _ => SpaceId::Initial,
+                        };
+                        return Some((now + duration, space));
+                    }
                     return result;
                 }
                 // Include max_ack_delay and backoff for ApplicationData.
